@@ -70,12 +70,22 @@ BodyChecks(e) ==
       n  == Len(e.req)
       straight == ex.ok /\ Len(ex.msgs) = n /\ \A i \in 1..n : FieldsMatch(T, I, ex.msgs[i], e.req[i], RT, RI)
       reversed == ex.ok /\ Len(ex.msgs) = n /\ \A i \in 1..n : FieldsMatch(T, I, ex.msgs[i], e.req[n + 1 - i], RT, RI)
+      opw == IF e.mt = "int" THEN OpSignedInternal ELSE OpSignedExternal
+      \* the specification's two formulations agree (BodyLayoutOK / SignedPart on the whole table vs the clause-wise reading)
+      prm == [wid |-> WalletIdBits(ver, e.opts), vu |-> e.vu, seqno |-> e.seqno, op |-> opw, msgs |-> IF ex.ok THEN MsgsOf(I, ex) ELSE <<>>]
+      clausewise == /\ ex.ok /\ ex.wid = prm.wid /\ ex.vu = UDec(e.vu, 32)
+                    /\ (Family(ver) # "highload" => ex.seqno = UDec(e.seqno, 32)) /\ (IsV5(ver) => ex.op = opw)
+                    /\ Len(ex.msgs) <= MaxMsgs(ver)
+      self == (Len(T) <= 80 /\ HasSignature(sl)) =>
+                 /\ ReprHash(InfoTable(SignedPart(ver, T))[1]) = SignedHash(ver, T, I, sl)
+                 /\ BodyLayoutOK(ver, T, prm) = clausewise
   IN << <<"key",      KeysOK(e)>>,
+        <<"spec:self", self>>,
         <<"extract",  ex.ok>>,
         <<"wid",      ex.ok => ex.wid = WalletIdBits(ver, e.opts)>>,
         <<"expiry",   ex.ok => ex.vu = UDec(e.vu, 32)>>,
         <<"seqno",    (ex.ok /\ Family(ver) # "highload") => ex.seqno = UDec(e.seqno, 32)>>,
-        <<"op",       (ex.ok /\ IsV5(ver)) => ex.op = (IF e.mt = "int" THEN OpSignedInternal ELSE OpSignedExternal)>>,
+        <<"op",       (ex.ok /\ IsV5(ver)) => ex.op = opw>>,
         <<"msgs",     ex.ok => (straight \/ reversed)>>,
         <<"order",    ex.ok => (straight \/ ~reversed)>>,
         <<"verify",   Verifies(ver, T, I, sl, HexToBytes(e.pk))>>,
